@@ -2,8 +2,10 @@
    Value::add / sub / mul / div / neg (core/src/num/unit.rs) and the
    `approx.` function (make_approximate).  Values are exact rationals; only
    the flag logic is mirrored:
-     add  : `if rhs.is_zero() { return self }` (unit.rs:205) -- the flag of
-            rhs is NOT consulted on that path -- otherwise the conjunction;
+     add  : `if rhs.is_zero() { return Self { exact: self.exact && rhs.exact, ..self } }`
+            (unit.rs, as repaired by fend commit 198ba44), otherwise the
+            conjunction;  before that commit the short-cut returned self with
+            its own flag (kept below as [vadd_old] / [feval_old]);
      sub  : add (neg rhs);   mul, div : conjunction;   neg : unchanged.
    Model file: executable definitions only. *)
 From FendV Require Import Base.Prelude.
@@ -21,22 +23,31 @@ Inductive fexpr :=
 
 Definition qzero (q : Q) : bool := Qeq_bool q 0.
 
+(* Value::add today *)
 Definition vadd (a b : Q * bool) : Q * bool :=
-  if qzero (fst b) then a                              (* unit.rs:205-207 *)
+  if qzero (fst b) then (fst a, snd a && snd b)        (* the zero short-cut, flags combined *)
   else ((fst a + fst b)%Q, snd a && snd b).
 
-Fixpoint feval (e : fexpr) : res (Q * bool) :=
+(* Value::add before 198ba44: `if rhs.is_zero() { return Ok(self); }` *)
+Definition vadd_old (a b : Q * bool) : Q * bool :=
+  if qzero (fst b) then a
+  else ((fst a + fst b)%Q, snd a && snd b).
+
+Fixpoint feval_with (add : Q * bool -> Q * bool -> Q * bool) (e : fexpr) : res (Q * bool) :=
   match e with
   | FLit q => Ok (q, true)
-  | FApprox e => do v <- feval e; Ok (fst v, false)
-  | FNeg e => do v <- feval e; Ok ((- fst v)%Q, snd v)
-  | FAdd a b => do x <- feval a; do y <- feval b; Ok (vadd x y)
-  | FSub a b => do x <- feval a; do y <- feval b; Ok (vadd x ((- fst y)%Q, snd y))
-  | FMul a b => do x <- feval a; do y <- feval b; Ok ((fst x * fst y)%Q, snd x && snd y)
-  | FDiv a b => do x <- feval a; do y <- feval b;
+  | FApprox e => do v <- feval_with add e; Ok (fst v, false)
+  | FNeg e => do v <- feval_with add e; Ok ((- fst v)%Q, snd v)
+  | FAdd a b => do x <- feval_with add a; do y <- feval_with add b; Ok (add x y)
+  | FSub a b => do x <- feval_with add a; do y <- feval_with add b; Ok (add x ((- fst y)%Q, snd y))
+  | FMul a b => do x <- feval_with add a; do y <- feval_with add b; Ok ((fst x * fst y)%Q, snd x && snd y)
+  | FDiv a b => do x <- feval_with add a; do y <- feval_with add b;
                 if qzero (fst y) then Err EDivByZero
                 else Ok ((fst x / fst y)%Q, snd x && snd y)
   end.
+
+Definition feval : fexpr -> res (Q * bool) := feval_with vadd.
+Definition feval_old : fexpr -> res (Q * bool) := feval_with vadd_old.
 
 (* the expression contains an approximate leaf *)
 Fixpoint uses_approx (e : fexpr) : bool :=
@@ -61,10 +72,11 @@ Fixpoint fvalue (e : fexpr) : option Q :=
                 | _, _ => None end
   end.
 
-(* classifier of the known defect: some addition or subtraction whose right
-   operand is an approximate value equal to zero *)
+(* classifier of the defect repaired by 198ba44 (kept as documentation and to
+   recognise a regression): some addition or subtraction whose right operand
+   is an approximate value equal to zero *)
 Definition approx_zero (e : fexpr) : bool :=
-  match feval e with Ok (v, fl) => qzero v && negb fl | _ => false end.
+  match feval_old e with Ok (v, fl) => qzero v && negb fl | _ => false end.
 
 Fixpoint known_C03_add_approx_zero (e : fexpr) : bool :=
   match e with
